@@ -41,6 +41,15 @@ def proj_defect(a: np.ndarray, b: np.ndarray, nax: int) -> tuple[float, int]:
     sh = a.shape[: a.ndim - nax]
     A = a.reshape(sh + (-1,)).astype(np.complex128)
     B = b.reshape(sh + (-1,)).astype(np.complex128)
+    if not np.all(np.isfinite(A)) or not np.all(np.isfinite(B)):
+        return math.inf, 0
+    # scale every element to max-abs 1 first: the comparison is projective, and squares of large (1e150) or tiny
+    # representatives would otherwise over-/underflow and produce nan
+    with np.errstate(all="ignore"):
+        ma = np.max(np.abs(A), axis=-1, keepdims=True)
+        mb = np.max(np.abs(B), axis=-1, keepdims=True)
+        A = A / np.where(ma > 0, ma, 1.0)
+        B = B / np.where(mb > 0, mb, 1.0)
     na = np.sum(np.abs(A) ** 2, axis=-1)
     nb = np.sum(np.abs(B) ** 2, axis=-1)
     ip = np.abs(np.sum(np.conj(A) * B, axis=-1)) ** 2
@@ -146,7 +155,7 @@ def rep_invariant(o) -> tuple[bool, str]:
 
 
 def cond_ok(m: np.ndarray) -> bool:
-    if not np.all(np.isfinite(m)) or np.max(np.abs(m)) > ENTRY_MAX:
+    if not np.all(np.isfinite(m)) or np.max(np.abs(m)) > ENTRY_MAX or np.max(np.abs(m)) < 1.0 / ENTRY_MAX:
         return False
     try:
         c = np.linalg.cond(m)
@@ -450,10 +459,13 @@ def pow_ok(m, k) -> bool:
         c = float(np.max(np.linalg.cond(m)))
     except np.linalg.LinAlgError:
         return False
-    # Tensor.__pow__ is one un-optimised einsum over |k| operands: its cost is n**(|k|+1) per matrix
-    n = m.shape[-1]
-    cost = n ** (abs(k) + 1) * max(int(np.prod(m.shape[:-2])), 1)
-    return math.isfinite(c) and abs(k) * math.log10(max(c, 1.0)) <= 8.0 and cost <= 3_000_000
+    # (before /repo 31a3c89 Tensor.__pow__ was one un-optimised einsum over |k| operands with cost n**(|k|+1) and a
+    # 52-label limit; the generator then also bounded that cost. Now only conditioning and magnitude are bounded.)
+    mk = _mpow(m, k)
+    if mk is None or not np.all(np.isfinite(mk)):
+        return False
+    mx = float(np.max(np.abs(mk)))
+    return math.isfinite(c) and abs(k) * math.log10(max(c, 1.0)) <= 8.0 and abs(k) <= 30 and 1e-30 <= mx <= 1e30
 
 
 def _mpow(m, k):
